@@ -402,13 +402,13 @@ pub fn run(tier: Tier, seed: u64) -> Report {
     let mut p = GenParams::default();
     p.max_ops = tier.pick(40, 120);
     p.w = [42, 14, 22, 8, 10, 4];
-    let total = tier.pick(2500, 60_000);
+    let total = tier.pick(6000, 60_000);
     let r = engine::explore("C13", "protocol", seed, total, || pcase(&p), check_protocol);
     rep.absorb("protocol-lockstep", r);
     if rep.failed() {
         return rep;
     }
-    let total = tier.pick(4000, 100_000);
+    let total = tier.pick(10_000, 100_000);
     let max = tier.pick(30, 80);
     let r = engine::explore("C13", "storage", seed, total, || scase(max), check_storage);
     rep.absorb("storage-contract-lockstep", r);
